@@ -19,7 +19,10 @@ for d in sorted(glob.glob(os.path.join(ROOT, "seeded", "*"))):
     demo_fails = "FAILED" in sec("patched: demo")
     checks = {}
     for lf in sorted(glob.glob(os.path.join(d, "check.C*.log"))):
-        p = re.search(r"check\.(C\d+)\.log", lf).group(1)
+        mm = re.search(r"check\.(C\d+)\.log$", lf)
+        if not mm:
+            continue
+        p = mm.group(1)
         s = open(lf).read()
         ex = re.findall(r"^exit=(\d+)", s, flags=re.M)
         summ = re.search(r"outcomes (\{[^}]*\})", s)
@@ -29,7 +32,7 @@ for d in sorted(glob.glob(os.path.join(ROOT, "seeded", "*"))):
                      "outcomes": summ.group(1) if summ else None}
     meta["evaluation"] = {"demo_passes_on_clean_tree": clean_demo, "suite_passes_with_change": lib_ok,
                           "demo_fails_with_change": demo_fails, "checks": checks,
-                          "how": "tools/mutant_confirm.sh in a scratch worktree; tools/mutant_check.sh: git -C /repo apply, ./check <id> quick, git -C /repo checkout -- ."}
+                          "how": "tools/mutant_confirm.sh in a scratch worktree; rounds 1-2 first with tools/mutant_check.sh (git -C /repo apply, ./check <id> quick, git -C /repo checkout -- .), all logs regenerated with the final machinery by tools/mutant_alt.sh (the same check against a patched copy of /repo)"}
     json.dump(meta, open(mp, "w"), indent=1)
     def verdict(c):
         if not c:
@@ -41,7 +44,7 @@ for d in sorted(glob.glob(os.path.join(ROOT, "seeded", "*"))):
         if c["exit"] == 0:
             return "**missed**"
         return f"exit {c['exit']}"
-    others = [f"{p}: {verdict(c)}" for p, c in checks.items() if p != pid]
+    others = [f"{p}: {verdict(c).replace('**missed**', 'quiet')}" for p, c in checks.items() if p != pid]
     rows.append((mid, meta.get("summary", "").replace("|", "/").replace("\n", " ")[:170],
                  "yes" if (clean_demo and lib_ok and demo_fails) else "NO", verdict(checks.get(pid)), "; ".join(others)))
 print("| id | change (abridged) | confirmed | its property's quick check | other checks run |")
